@@ -184,6 +184,7 @@ _MORE = {
     ('mchap.application.baseclass', 'program.encode_sample_reads'): ['C03'],       # the read tensor and counts every likelihood is taken of
     ('mchap.application.baseclass', 'program.require_AFP'): ['C03'],                # which report fields switch the posterior summaries on
     ('mchap.io.loci', '_merge_snps'): ['C06'],
+    ('mchap.io.loci', 'Locus.set_variants'): ['C12'],                               # which variant records belong to a locus (SNVPOS)
     ('mchap.application.assemble', '_genotype_posterior_as_array'): ['C14'],      # GP of assemble: the retained trace's genotype frequencies by G-index                                       # records of one position must share the reference base
     ('mchap.application.baseclass', 'program.header'): ['C07', 'C08'],
     ('mchap.application.baseclass', 'program.header_contigs'): ['C07'],
@@ -242,6 +243,10 @@ SLICES = {
     'C15': [('assemble', 'construction and fit of the assembly sampler', [AM + 'mcmc.DenovoMCMC'], None)],
     'C02': [('call', 'construction, fit and burn-in of the calling sampler', [CM + 'classes.CallingMCMC', CM + 'classes.GenotypeAllelesMultiTrace.burn'], None),
             (CM + 'classes', 'what fit hands to the sampler', [CM + 'mcmc.mcmc_sampler'], None, None, 'CallingMCMC.fit')],
+    'C11': [('call', 'allele count that sizes the genotype vectors', [CM + 'classes.GenotypeAllelesMultiTrace.relabel', CM + 'classes.PosteriorGenotypeAllelesDistribution.as_array'], ['GP']),
+            ('call_pedigree', 'allele count that sizes the genotype vectors', [CM + 'classes.GenotypeAllelesMultiTrace.relabel', CM + 'classes.PosteriorGenotypeAllelesDistribution.as_array',
+                                                                              PM + 'classes.PedigreeAllelesMultiTrace.individual'], ['GP']),
+            ('call_exact', 'allele count that sizes the genotype vectors', [CM + 'exact.genotype_likelihoods', CM + 'exact.genotype_posteriors'], ['GP', 'GL'])],
     'C05': [(AM + 'mcmc', 'prior parameters handed to every move of the assembly sampler', [AM + 'mutation.', AM + 'structural.', AM + 'tempering.'],
              None, ['inbreeding', 'log_unique_haplotypes', 'unique_haplotypes'], '_denovo_assembler')],
     'C10': [('assemble', 'per-sample parameters of the sampler', [AM + 'mcmc.DenovoMCMC'], None, ['ploidy', 'inbreeding', 'temperatures']),
